@@ -4,13 +4,7 @@ from gens_codec import hx, image_py, enc_header_py
 from gens_cli import fill_ops, CLI_LAYOUTS, lay_csv, observe_all
 
 
-def waitopen_lines(rnd):
-    """a multi-page single-archive file, partly filled, then an Open that has to wait for a writer"""
-    layout = [(1, rnd.pick([400, 700, 1200]))]
-    now = 1700000000 + rnd.randint(0, 10 ** 6)
-    pts = [(now - j, small_value(rnd)) for j in range(layout[0][1]) if rnd.chance(0.5)]
-    return ["create w %s m 2 x 3f000000" % fmt_layout(layout),
-            "many w 0 %d %d %s" % (now, len(pts), " ".join("%d %016x" % tv for tv in pts)), "sync w", "drop w", "waitopen w %d" % now]
+from gens_concur_lines import waitopen_lines
 
 
 def gen_c13(rnd, n, thorough=False):
